@@ -583,7 +583,7 @@ class PFITSFile:
         elif self.sub_hdr.poln_state == "Stokes":
             data = sdata[:, 0, :]
         elif self.sub_hdr.poln_state == "Intensity":
-            data = sdata[:, 0, :].squeeze()
+            data = sdata[:, 0, :]
 
         return data
 
@@ -612,7 +612,10 @@ class PFITSFile:
             otherwise in ``uint8`` with shape ``(nsamps, npol, nchan)``.
         """
         sdata = self._fits["SUBINT"].data[isub]["DATA"]
-        sdata = sdata.squeeze()
+        # Drop only leading length-1 axes (a 4-D TDIM): a single polarisation,
+        # channel or sample per row keeps its axis
+        while sdata.ndim > 3 and sdata.shape[0] == 1:
+            sdata = sdata[0]
         if self.bitsinfo.unpack:
             data = unpack(sdata.ravel(), self.bitsinfo.nbits)
             data = data.reshape(
